@@ -378,7 +378,15 @@ def run(rep, tier):
             sites += 1
             inner = loops[0]
             feats = set()
-            for s in sub(inner):
+            # the loop body plus the bodies of repository helpers called in it (an extracted `descriptorToPrefix(token)`)
+            scan = list(sub(inner))
+            for s in list(scan):
+                c_ = s.get('callee')
+                if c_ and not c_.get('ext') and c_['m'] in fb.funcs and c_['q'] not in ('uscxml::Trie::getWordsWithPrefix', 'uscxml::tokenize') and not c_['q'].startswith(('uscxml::X::', 'uscxml::DOMUtils::')):
+                    cf_ = fb.funcs[c_['m']]
+                    if cf_.file == f.file or cf_.file.startswith('src/uscxml/util/'):
+                        scan += list(cf_.walk())
+            for s in scan:
                 q = s.get('callee', {}).get('q', '')
                 if q.startswith('boost::algorithm::ends_with') or q.startswith('boost::ends_with'):
                     for x in sub(s):
